@@ -12,7 +12,7 @@ import (
 func init() {
 	register("P-FILERENDER-ORDER", "File.Render: the body is rendered into a private buffer before the import block is printed and nothing that can register an import runs afterwards; the source buffer receives header comments, a blank line exactly if there are headers, package comments, the package clause, `// import \"path\"` exactly if CanonicalPath is set, a blank line, the import block, the body — in that order", 4, rulePXFileRender)
 	register("P-IMPORTBLOCK", "renderImports: an import line carries an alias exactly if the entry is flagged alias and the path is not \"C\", printing that entry's name and path; \"C\" is left out of the main block only when a preamble exists; the preamble comments are followed directly by `import \"C\"`", 5, rulePXImportBlock)
-	register("P-CTOR", "every File constructor initialises a multi-line Group and fresh, empty imports and hints maps; HeaderComment / PackageComment / CgoPreamble append the caller's text unmodified", 9, ruleCtor)
+	register("P-CTOR", "every File constructor initialises a multi-line Group and fresh, empty imports and hints maps; HeaderComment / PackageComment / CgoPreamble append the caller's text unmodified", 9, rulePXCtor)
 }
 
 // builderItemTypes: for a call of a builder (package function returning a fresh *Statement) the set
